@@ -277,7 +277,15 @@ Definition update_ack (k : kcp) (rtt : Z) : kcp :=
   set_rtt k var srtt (Z.min (Z.max (rx_minrto k) rto) c_IKCP_RTO_MAX) (rx_minrto k).
 
 (* ---- acknowledgement processing ---- *)
+(* segments acknowledged selectively leave snd_buf once they reach its head *)
+Fixpoint drop_acked (l : list seg) : list seg :=
+  match l with
+  | s :: t => if s_acked s =? 0 then l else drop_acked t
+  | [] => []
+  end.
+
 Definition shrink_buf (k : kcp) : kcp :=
+  let k := set_snd_buf k (drop_acked (snd_buf k)) in
   match snd_buf k with
   | s :: _ => set_snd_una k (s_sn s)
   | [] => set_snd_una k (snd_nxt k)
@@ -477,7 +485,10 @@ Definition flush (k : kcp) (ftype : Z) (now : Z) : res (kcp * Z * list bytes) :=
   (* phase 4 *)
   let cw0 := Z.min (snd_wnd k3) (rmt_wnd k3) in
   let cw := if nocwnd k3 =? 0 then Z.min (cwnd k3) cw0 else cw0 in
-  let '(sq, sb, nxt, newsegs) := admit (snd_queue k3) (snd_buf k3) (conv k3) (snd_una k3) (snd_nxt k3) cw 0 in
+  let '(sq, sb, nxt, newsegs) :=
+    if ftype =? FLUSH_FULL
+    then admit (snd_queue k3) (snd_buf k3) (conv k3) (snd_una k3) (snd_nxt k3) cw 0
+    else (snd_queue k3, snd_buf k3, snd_nxt k3, 0) in
   let k4 := set_snd_nxt (set_queues k3 sq (rcv_queue k3) sb (rcv_buf k3)) nxt in
   let resent := if fastresend k4 <=? 0 then 4294967295 else u32 (fastresend k4) in
   (* phase 5 *)
@@ -535,6 +546,7 @@ Definition input_seg (a : inp) (data : bytes) (regular : bool) : res (inp * byte
     if cmd =? c_IKCP_CMD_ACK then
       let k := parse_ack k sn in
       let '(k, f) := parse_fastack k sn ts in
+      let k := shrink_buf k in
       inl (Ok (mkInp k ts true (f || fl1), rest))
     else if cmd =? c_IKCP_CMD_PUSH then
       if itimediff sn (u32 (rcv_nxt k + rcv_wnd k)) <? 0 then
